@@ -197,6 +197,7 @@ type DFSResult struct {
 	Unstable            int            `json:"unstable"`
 	Truncated           int            `json:"truncated"`
 	Diverged            int            `json:"diverged"`
+	DivergedRetried     int            `json:"diverged_retried"`
 	Repeats             int            `json:"repeats"`
 	MaxPoints           int            `json:"max_points"`
 	Exhaustive          bool           `json:"exhaustive"`
@@ -215,6 +216,7 @@ func (r *DFSResult) merge(o DFSResult) {
 	r.Unstable += o.Unstable
 	r.Truncated += o.Truncated
 	r.Diverged += o.Diverged
+	r.DivergedRetried += o.DivergedRetried
 	r.Repeats += o.Repeats
 	if o.MaxPoints > r.MaxPoints {
 		r.MaxPoints = o.MaxPoints
@@ -277,6 +279,29 @@ type explorer struct {
 	started  atomic.Int64
 }
 
+// panicOrigin returns the function of the innermost non-runtime frame below the panic call in a stack dump
+// taken inside the recovering deferred function.
+func panicOrigin(stack string) string {
+	lines := strings.Split(stack, "\n")
+	i := 0
+	for ; i < len(lines); i++ {
+		if strings.HasPrefix(lines[i], "panic(") {
+			break
+		}
+	}
+	for i += 2; i < len(lines); i += 2 {
+		fn := lines[i]
+		if k := strings.LastIndex(fn, "("); k > 0 {
+			fn = fn[:k]
+		}
+		if strings.HasPrefix(fn, "runtime.") || strings.HasPrefix(fn, "runtime/") || fn == "" {
+			continue
+		}
+		return fn
+	}
+	return ""
+}
+
 func (e *explorer) run(prefix []int, verbose bool) *X {
 	x := &X{prefix: prefix, maxPoints: e.cfg.MaxPoints, Verbose: verbose}
 	if e.cfg.GCEvery > 0 {
@@ -291,8 +316,21 @@ func (e *explorer) run(prefix []int, verbose bool) *X {
 		defer func() {
 			if r := recover(); r != nil {
 				if _, ok := r.(stopExec); !ok {
-					fmt.Fprintf(os.Stderr, "HARNESS-ERROR: panic outside Guard in %s with choices %v: %v\n%s\n", e.cfg.Name, prefix, r, debug.Stack())
-					os.Exit(2)
+					st := string(debug.Stack())
+					fn := panicOrigin(st)
+					if !strings.HasPrefix(fn, "github.com/talostrading/sonic") {
+						fmt.Fprintf(os.Stderr, "HARNESS-ERROR: panic outside Guard in %s with choices %v: %v\n%s\n", e.cfg.Name, prefix, r, st)
+						os.Exit(2)
+					}
+					// the code under test panicked (the innermost non-runtime frame is the library's): a violation
+					// of whatever property is being checked — none of them allows a panic on these inputs
+					if x.fail == nil {
+						lines := strings.Split(st, "\n")
+						if len(lines) > 40 {
+							lines = lines[:40]
+						}
+						x.fail = &Violation{Sig: "panic/" + strings.TrimPrefix(fn, "github.com/talostrading/sonic"), Msg: fmt.Sprintf("the library panicked: %v\n%s", r, strings.Join(lines, "\n"))}
+					}
 				}
 			}
 			for i := len(x.defers) - 1; i >= 0; i-- {
@@ -386,6 +424,12 @@ func (e *explorer) explore(prefix []int, depth int, owned bool) {
 		return
 	}
 	x := e.run(prefix, false)
+	// a prefix that does not fit the alternatives offered now was recorded in an execution whose environment
+	// answered differently (a timing fluke on real descriptors): try again before giving the subtree up
+	for retry := 0; x.diverged && retry < 3; retry++ {
+		e.res.DivergedRetried++
+		x = e.run(prefix, false)
+	}
 	if x.diverged {
 		e.res.Diverged++
 		e.res.Exhaustive = false
@@ -648,6 +692,7 @@ func (t *DFSTotals) Fill(rep *Report, rule string, bound int) {
 	}
 	c["truncated_at_horizon"] = t.R.Truncated
 	c["diverged_prefixes"] = t.R.Diverged
+	c["diverged_prefixes_retried"] = t.R.DivergedRetried
 	c["further_cases_of_reported_violations"] = t.R.Repeats
 	c["max_choice_points"] = t.R.MaxPoints
 	c["exhaustive"] = t.R.Exhaustive
